@@ -21,6 +21,9 @@ type Value struct {
 	S      string   `json:"s,omitempty"`
 	Items  []string `json:"items,omitempty"`
 	Fields []KV     `json:"fields,omitempty"`
+	// Unset: declared optional properties that carry no value (struct with
+	// optional properties: the generated code calls EncodeField without a value).
+	Unset []string `json:"unset,omitempty"`
 }
 
 func prim(s string) Value         { return Value{Kind: "prim", S: s} }
@@ -41,6 +44,9 @@ func (v Value) String() string {
 				b.WriteByte(' ')
 			}
 			fmt.Fprintf(&b, "%q:%q", f.K, f.V)
+		}
+		for _, u := range v.Unset {
+			fmt.Fprintf(&b, " %q:<unset>", u)
 		}
 		b.WriteByte('}')
 		return b.String()
